@@ -1,12 +1,41 @@
 """C05 — no received datagram can crash, hang or wedge the receive path."""
 from harness import sctp_check as S
+from harness import c05rtp as R
 
-LEAN_TARGETS = ["Aiortc.Props.C05"]
-DRIVERS = ["Sctp"]
+LEAN_TARGETS = ["Aiortc.Props.C05", "Aiortc.Props.C05Sctp", "Aiortc.Props.C05Rtp"]
+AUDIT_PROPS = ["C05", "C05Sctp", "C05Rtp"]
+DRIVERS = ["Sctp"] + list(R.DRIVERS)
+MANIFEST = {
+    "technique": "Lean 4 theorems (weakest-precondition calculus over the SCTP endpoint automaton; totality of every wire parser; "
+                 "dispatch models of the RTP/RTCP receive path) + byte-exact trace correspondence with real endpoints under hostile datagrams",
+    "text": "SCTP: `rx_never_crashes_proved` - from every endpoint state satisfying the invariant `Inv` (proved to hold after start() and to be "
+            "preserved by every datagram, timer expiry and task), NO byte string makes the receive path raise or hang, and the invariant holds "
+            "again afterwards; every wire parser (SCTP packets/chunks/parameters/RE-CONFIG, RTP, header extensions, RTCP, REMB, H.264 and VP8 "
+            "payload descriptors) returns a value or ValueError for every input (`parsers_total`); RTP/RTCP: the dispatch around the parsers "
+            "(`_recv_next` demultiplexing, `_handle_rtp_data`, `_handle_rtcp_data`, receiver and sender RTCP/RTP handlers) is total on states "
+            "satisfying the component invariants and `still_alive` shows these are preserved. The models are tied to the real code by replaying "
+            "recorded runs of REAL endpoints / transports / receivers / senders with hostile datagrams injected in every protocol state.",
+    "note": "Partial: the SCTP theorem assumes no queued message of a channel still waiting for its stream id and only reliable traffic in the "
+            "send queues (see ASSUMPTIONS); work bounds are explicit only for SACK gap expansion, the NACK generator and retransmissions; real "
+            "memory use, the decoder thread and PyAV are outside; the CPU-time and still-alive clauses are oracle-checked on the implementation.",
+    "design_ref": "DESIGN.md §2 C05, §8.2",
+}
+ASSUMPTIONS = [
+    "SCTP part (`rx_never_crashes_proved`): the endpoint state satisfies `Inv` (indices of `dataChannels`/`dcQueue` valid, started => ids and remote "
+    "port known, timers armed iff their chunk is present, reassembly TSNs accepted, no queued message of a channel still waiting for its stream id, "
+    "nothing partially reliable queued for sending), the datagram is a byte string and the state cookie is at most 1000 bytes",
+    "hostile datagrams that are valid protocol actions under the correct verification tag (fresh DATA, SACK/FORWARD-TSN ahead of the truth, stream "
+    "resets, ABORT, mutated real datagrams ...) are only required not to crash or hang the endpoint; non-forging datagrams must also leave the "
+    "association able to carry valid traffic afterwards",
+] + list(R.ASSUMPTIONS)
+TRUSTED_EXTRA = [
+    "HMAC-SHA1 of the SCTP state cookie is not modelled (a COOKIE-ECHO is valid iff its body is a cookie this endpoint issued)",
+    "handlers are atomic in the model; the simulation counts coroutines that suspend (none does)",
+] + list(R.TRUSTED_EXTRA)
 RULE = ("SCTP: recorded schedules over two REAL endpoints in which a quarter of the steps inject a hostile datagram "
         "(random bytes, mutated real datagrams with recomputed CRC, structure-aware nonsense chunks of every type with the "
         "correct verification tag) in whatever protocol state the endpoint is in; every step is replayed through the Lean "
-        "automaton; afterwards the network heals and valid traffic must still be delivered")
+        "automaton; afterwards the network heals and valid traffic must still be delivered. " + R.RULE)
 
 
 def oracle_alive(case, run):
@@ -27,7 +56,7 @@ def oracle_alive(case, run):
 class World(S.WorldComponent):
     name = "sctp"
     prop = "C05"
-    theorems = ["parsers_total", "sctp_rx_total"]
+    theorems = ["rx_never_crashes_proved", "rx_no_hang", "sctp_parsers_total"]
     mix = [("hostile", False, 2), ("hostile-benign", False, 3), ("hostile-benign", True, 1)]
     quick = (40, 220)
     thorough = (400, 400)
@@ -46,7 +75,7 @@ class World(S.WorldComponent):
 
 
 def components(tier):
-    return [World()]
+    return [World()] + list(R.components(tier))
 
 
 def classify_finding(finding, comp_name, case, what):
